@@ -1,0 +1,476 @@
+//! Verification hooks. Compiled only with `--cfg cached_verif`; with the flag off this file is not part of the crate.
+//!
+//! The hooks never change what the cache does. They let an external harness
+//! - hold the three background threads (command worker, TTL sweeper, access consumer) at a gate and
+//!   release them one unit of work at a time,
+//! - park a registered client thread in front of a blocking send when the target queue is full,
+//! - stop a registered thread at named schedule points (fine-grained interleavings),
+//! - record what the code saw of its nondeterministic environment (map iteration order, heap pops,
+//!   random pool index, bloom answers), and record nested lock acquisitions,
+//! - read the complete internal state (see `Snapshot`).
+//!
+//! A thread that is not registered with a `Controller` passes every hook without any effect.
+use std::cell::RefCell;
+use std::collections::HashMap;
+use std::sync::{Arc, Condvar, Mutex, MutexGuard};
+use std::time::{Duration, Instant};
+
+pub use crate::cache::lfu::frequency_counter::verif_row;
+pub use crate::cache::lfu::frequency_counter::VerifFrequencyCounter;
+pub use crate::cache::lfu::tiny_lfu::VerifTinyLFU;
+pub use crate::cache::policy::cache_weight::verif_sampled_key_cmp;
+pub use crate::cache::policy::cache_weight::VerifCacheWeight;
+pub use crate::cache::store::verif_type_of_expiry_update;
+pub use crate::cache::stats::verif_hit_ratio;
+pub use crate::cache::expiration::VerifTicker;
+pub use crate::cache::pool::VerifPool;
+
+#[derive(Clone, Copy, Debug, PartialEq, Eq, Hash)]
+pub enum Role { Worker, Sweeper, Consumer, Client(usize) }
+
+#[derive(Clone, Debug, PartialEq, Eq)]
+pub enum RoleState {
+    /// not started yet or not registered
+    Unknown,
+    /// waiting at its gate for a permit
+    AtGate,
+    /// released, doing one unit of work
+    Running,
+    /// worker only: has executed `Shutdown` and answers everything else with `ShuttingDown`
+    Draining,
+    /// left its loop normally
+    Exited,
+    /// panicked (message, location)
+    Dead(String),
+}
+
+#[derive(Clone, Debug, PartialEq, Eq)]
+pub enum ClientState {
+    Idle,
+    Running,
+    /// parked in front of a blocking send because the queue is full: 0 = command queue, 1 = buffer channel
+    BlockedAtSend(u8),
+    /// stopped at a named schedule point
+    AtPoint(&'static str),
+}
+
+#[derive(Clone, Debug, PartialEq, Eq)]
+pub enum Oracle {
+    /// ids yielded by the key_weights iterator during one sampling call (initial sample or fill-in)
+    Order(Vec<u64>),
+    /// id popped from the sample heap (None when the heap was empty)
+    Pop(Option<u64>),
+    /// buffer index drawn by Pool::add
+    PoolIndex(usize),
+    /// answer of the bloom filter for a hash
+    Bloom(u64, bool),
+}
+
+/// (held lock classes, acquired lock class)
+pub type LockEdge = (Vec<&'static str>, &'static str);
+
+struct Inner {
+    roles: HashMap<Role, RoleState>,
+    permits: HashMap<Role, u64>,
+    done: HashMap<Role, u64>,
+    clients: HashMap<usize, ClientState>,
+    client_release: HashMap<usize, u64>,
+    stepping: HashMap<Role, bool>,
+    point_state: HashMap<Role, Option<&'static str>>,
+    point_release: HashMap<Role, u64>,
+    oracle: Vec<Oracle>,
+    lock_edges: Vec<LockEdge>,
+    consumer_stalled: bool,
+    free_run: HashMap<Role, bool>,
+}
+
+pub struct Controller {
+    inner: Mutex<Inner>,
+    cv: Condvar,
+    tick_tx: Mutex<Option<crossbeam_channel::Sender<Instant>>>,
+}
+
+struct Ctx {
+    ctl: Arc<Controller>,
+    role: Role,
+    held: Vec<&'static str>,
+}
+
+impl Drop for Ctx {
+    fn drop(&mut self) {
+        let mut g = self.ctl.lock();
+        let st = g.roles.entry(self.role).or_insert(RoleState::Unknown);
+        if !matches!(st, RoleState::Dead(_)) { *st = RoleState::Exited; }
+        drop(g);
+        self.ctl.cv.notify_all();
+    }
+}
+
+thread_local! {
+    static CTX: RefCell<Option<Ctx>> = RefCell::new(None);
+    static PENDING: RefCell<Option<Arc<Controller>>> = RefCell::new(None);
+}
+
+impl Controller {
+    pub fn new() -> Arc<Controller> {
+        Arc::new(Controller {
+            inner: Mutex::new(Inner {
+                roles: HashMap::new(), permits: HashMap::new(), done: HashMap::new(),
+                clients: HashMap::new(), client_release: HashMap::new(),
+                stepping: HashMap::new(), point_state: HashMap::new(), point_release: HashMap::new(),
+                oracle: Vec::new(), lock_edges: Vec::new(), consumer_stalled: false, free_run: HashMap::new(),
+            }),
+            cv: Condvar::new(),
+            tick_tx: Mutex::new(None),
+        })
+    }
+
+    fn lock(&self) -> MutexGuard<'_, Inner> {
+        self.inner.lock().unwrap_or_else(|e| e.into_inner())
+    }
+
+    /// Makes this controller the one that background threads spawned from the current thread will register with.
+    pub fn install(self: &Arc<Controller>) {
+        PENDING.with(|p| *p.borrow_mut() = Some(self.clone()));
+    }
+
+    pub fn uninstall() {
+        PENDING.with(|p| *p.borrow_mut() = None);
+    }
+
+    /// Registers the current thread as a client thread.
+    pub fn register_client(self: &Arc<Controller>, tid: usize) {
+        enter(Some(self.clone()), Role::Client(tid));
+    }
+
+    pub fn role_state(&self, role: Role) -> RoleState {
+        self.lock().roles.get(&role).cloned().unwrap_or(RoleState::Unknown)
+    }
+
+    pub fn client_state(&self, tid: usize) -> ClientState {
+        self.lock().clients.get(&tid).cloned().unwrap_or(ClientState::Idle)
+    }
+
+    pub fn set_client_state(&self, tid: usize, state: ClientState) {
+        self.lock().clients.insert(tid, state);
+        self.cv.notify_all();
+    }
+
+    /// Waits until `role` is at its gate (or dead / exited / draining). Returns its state.
+    pub fn wait_at_gate(&self, role: Role, timeout: Duration) -> RoleState {
+        let deadline = Instant::now() + timeout;
+        let mut g = self.lock();
+        loop {
+            let st = g.roles.get(&role).cloned().unwrap_or(RoleState::Unknown);
+            match st {
+                RoleState::AtGate | RoleState::Dead(_) | RoleState::Exited | RoleState::Draining => return st,
+                _ => {}
+            }
+            let now = Instant::now();
+            if now >= deadline { return st; }
+            g = self.cv.wait_timeout(g, deadline - now).unwrap_or_else(|e| e.into_inner()).0;
+        }
+    }
+
+    /// Lets `role` run one unit of work (one command, one batch) and waits until it is back at its gate,
+    /// dead, exited or draining. Returns the final state.
+    pub fn step(&self, role: Role, timeout: Duration) -> RoleState {
+        {
+            let mut g = self.lock();
+            *g.permits.entry(role).or_insert(0) += 1;
+            g.roles.insert(role, RoleState::Running);
+        }
+        self.cv.notify_all();
+        self.wait_at_gate(role, timeout)
+    }
+
+    /// Lets `role` run freely from now on (its gate no longer stops it).
+    pub fn free_run(&self, role: Role) {
+        self.lock().free_run.insert(role, true);
+        self.cv.notify_all();
+    }
+
+    /// Sends one manual tick to the sweeper and waits for the sweep to finish.
+    pub fn tick(&self, timeout: Duration) -> RoleState {
+        let before = { self.lock().done.get(&Role::Sweeper).copied().unwrap_or(0) };
+        {
+            let tx = self.tick_tx.lock().unwrap_or_else(|e| e.into_inner());
+            match tx.as_ref() {
+                Some(tx) => { if tx.send(Instant::now()).is_err() { return RoleState::Exited; } }
+                None => return RoleState::Unknown,
+            }
+        }
+        let deadline = Instant::now() + timeout;
+        let mut g = self.lock();
+        loop {
+            let st = g.roles.get(&Role::Sweeper).cloned().unwrap_or(RoleState::Unknown);
+            if g.done.get(&Role::Sweeper).copied().unwrap_or(0) > before { return RoleState::AtGate; }
+            if matches!(st, RoleState::Dead(_) | RoleState::Exited) { return st; }
+            let now = Instant::now();
+            if now >= deadline { return RoleState::Running; }
+            g = self.cv.wait_timeout(g, deadline - now).unwrap_or_else(|e| e.into_inner()).0;
+        }
+    }
+
+    /// Sends a manual tick without waiting (used by fine-grained schedules where the sweeper stops at points).
+    pub fn tick_async(&self) -> bool {
+        let tx = self.tick_tx.lock().unwrap_or_else(|e| e.into_inner());
+        match tx.as_ref() { Some(tx) => tx.send(Instant::now()).is_ok(), None => false }
+    }
+
+    pub fn sweeps_done(&self) -> u64 { self.lock().done.get(&Role::Sweeper).copied().unwrap_or(0) }
+
+    pub fn units_done(&self, role: Role) -> u64 { self.lock().done.get(&role).copied().unwrap_or(0) }
+
+    /// Releases a client parked in front of a blocking send.
+    pub fn release_client(&self, tid: usize) {
+        *self.lock().client_release.entry(tid).or_insert(0) += 1;
+        self.cv.notify_all();
+    }
+
+    /// Waits until client `tid` is not `Running` any more (finished, blocked at a send, or at a point).
+    pub fn wait_client(&self, tid: usize, timeout: Duration) -> ClientState {
+        let deadline = Instant::now() + timeout;
+        let mut g = self.lock();
+        loop {
+            let st = g.clients.get(&tid).cloned().unwrap_or(ClientState::Idle);
+            if st != ClientState::Running { return st; }
+            let now = Instant::now();
+            if now >= deadline { return st; }
+            g = self.cv.wait_timeout(g, deadline - now).unwrap_or_else(|e| e.into_inner()).0;
+        }
+    }
+
+    /// Turns on point-stepping for a role: it stops at every `point(..)` until released by `step_point`.
+    pub fn set_stepping(&self, role: Role, on: bool) {
+        self.lock().stepping.insert(role, on);
+        self.cv.notify_all();
+    }
+
+    /// The point at which `role` is stopped, if any.
+    pub fn at_point(&self, role: Role) -> Option<&'static str> {
+        self.lock().point_state.get(&role).copied().flatten()
+    }
+
+    /// Waits until `role` is stopped at a point (returns its label) or until `finished()` is true or the time is up.
+    pub fn wait_point<F: Fn(&Controller) -> bool>(&self, role: Role, timeout: Duration, finished: F) -> Option<&'static str> {
+        let deadline = Instant::now() + timeout;
+        loop {
+            if let Some(l) = self.at_point(role) { return Some(l); }
+            if finished(self) { return self.at_point(role); }
+            if Instant::now() >= deadline { return None; }
+            let g = self.lock();
+            let _ = self.cv.wait_timeout(g, Duration::from_millis(1)).unwrap_or_else(|e| e.into_inner());
+        }
+    }
+
+    /// Releases `role` from the point it is stopped at.
+    pub fn step_point(&self, role: Role) {
+        let mut g = self.lock();
+        g.point_state.insert(role, None);
+        *g.point_release.entry(role).or_insert(0) += 1;
+        drop(g);
+        self.cv.notify_all();
+    }
+
+    pub fn take_oracle(&self) -> Vec<Oracle> { std::mem::take(&mut self.lock().oracle) }
+
+    pub fn take_lock_edges(&self) -> Vec<LockEdge> { std::mem::take(&mut self.lock().lock_edges) }
+
+    pub fn stall_consumer(&self, on: bool) {
+        self.lock().consumer_stalled = on;
+        self.cv.notify_all();
+    }
+
+    /// To be called from a panic hook installed by the harness: marks the panicking thread's role dead.
+    pub fn note_panic(message: String) {
+        let _ = CTX.try_with(|c| {
+            if let Ok(b) = c.try_borrow() {
+                if let Some(ctx) = b.as_ref() {
+                    if let Role::Client(_) = ctx.role { return; }
+                    let mut g = ctx.ctl.lock();
+                    g.roles.insert(ctx.role, RoleState::Dead(message.clone()));
+                    drop(g);
+                    ctx.ctl.cv.notify_all();
+                }
+            }
+        });
+    }
+}
+
+/// Called on the spawning thread just before `thread::spawn`: the controller the new thread will register with.
+pub(crate) fn capture() -> Option<Arc<Controller>> {
+    PENDING.with(|p| p.borrow().clone())
+}
+
+/// Called first thing inside a spawned background thread (or by a client thread through `register_client`).
+pub(crate) fn enter(ctl: Option<Arc<Controller>>, role: Role) {
+    if let Some(ctl) = ctl {
+        {
+            let mut g = ctl.lock();
+            g.roles.insert(role, RoleState::Running);
+            if let Role::Client(tid) = role { g.clients.insert(tid, ClientState::Idle); }
+        }
+        ctl.cv.notify_all();
+        CTX.with(|c| *c.borrow_mut() = Some(Ctx { ctl, role, held: Vec::new() }));
+    }
+}
+
+fn with_ctx<R, F: FnOnce(&mut Ctx) -> R>(f: F) -> Option<R> {
+    CTX.try_with(|c| {
+        match c.try_borrow_mut() {
+            Ok(mut b) => b.as_mut().map(f),
+            Err(_) => None,
+        }
+    }).ok().flatten()
+}
+
+/// Gate of a background loop: counts one finished unit of work, then waits for a permit.
+/// `first` is true for the call placed in front of the loop (no unit of work finished yet).
+pub(crate) fn gate(first: bool) {
+    let found = with_ctx(|ctx| (ctx.ctl.clone(), ctx.role));
+    if let Some((ctl, role)) = found {
+        let mut g = ctl.lock();
+        if !first { *g.done.entry(role).or_insert(0) += 1; }
+        g.roles.insert(role, RoleState::AtGate);
+        ctl.cv.notify_all();
+        loop {
+            if g.free_run.get(&role).copied().unwrap_or(false) { break; }
+            let stalled = role == Role::Consumer && g.consumer_stalled;
+            let p = g.permits.entry(role).or_insert(0);
+            if *p > 0 && !stalled { *p -= 1; break; }
+            g = ctl.cv.wait(g).unwrap_or_else(|e| e.into_inner());
+        }
+        g.roles.insert(role, RoleState::Running);
+        drop(g);
+        ctl.cv.notify_all();
+    }
+}
+
+/// Worker: `Shutdown` has been executed and acknowledged, the drain loop starts.
+pub(crate) fn worker_draining() {
+    let found = with_ctx(|ctx| (ctx.ctl.clone(), ctx.role));
+    if let Some((ctl, role)) = found {
+        let mut g = ctl.lock();
+        *g.done.entry(role).or_insert(0) += 1;
+        g.roles.insert(role, RoleState::Draining);
+        drop(g);
+        ctl.cv.notify_all();
+    }
+}
+
+/// Sweeper: replaces the periodic tick by a channel the harness feeds, when a controller is installed.
+pub(crate) fn manual_tick(receiver: crossbeam_channel::Receiver<Instant>) -> (crossbeam_channel::Receiver<Instant>, Option<Arc<Controller>>) {
+    match capture() {
+        Some(ctl) => {
+            let (tx, rx) = crossbeam_channel::unbounded();
+            *ctl.tick_tx.lock().unwrap_or_else(|e| e.into_inner()) = Some(tx);
+            (rx, Some(ctl))
+        }
+        None => (receiver, None),
+    }
+}
+
+/// Sweeper: one sweep finished.
+pub(crate) fn sweep_done() {
+    let found = with_ctx(|ctx| (ctx.ctl.clone(), ctx.role));
+    if let Some((ctl, role)) = found {
+        let mut g = ctl.lock();
+        *g.done.entry(role).or_insert(0) += 1;
+        g.roles.insert(role, RoleState::AtGate);
+        drop(g);
+        ctl.cv.notify_all();
+    }
+}
+
+/// In front of a blocking send. `which`: 0 = command queue, 1 = buffer channel.
+/// A registered client thread parks here while the queue is full, until the harness releases it.
+pub(crate) fn before_send(which: u8, is_full: bool) {
+    if !is_full { return; }
+    let found = with_ctx(|ctx| (ctx.ctl.clone(), ctx.role));
+    if let Some((ctl, Role::Client(tid))) = found {
+        let mut g = ctl.lock();
+        let target = g.client_release.get(&tid).copied().unwrap_or(0) + 1;
+        g.clients.insert(tid, ClientState::BlockedAtSend(which));
+        ctl.cv.notify_all();
+        while g.client_release.get(&tid).copied().unwrap_or(0) < target {
+            g = ctl.cv.wait(g).unwrap_or_else(|e| e.into_inner());
+        }
+        g.clients.insert(tid, ClientState::Running);
+        drop(g);
+        ctl.cv.notify_all();
+    }
+}
+
+/// A named schedule point. Stops the thread when point-stepping is on for its role.
+pub(crate) fn point(label: &'static str) {
+    let found = with_ctx(|ctx| (ctx.ctl.clone(), ctx.role));
+    if let Some((ctl, role)) = found {
+        let mut g = ctl.lock();
+        if !g.stepping.get(&role).copied().unwrap_or(false) { return; }
+        let target = g.point_release.get(&role).copied().unwrap_or(0) + 1;
+        g.point_state.insert(role, Some(label));
+        ctl.cv.notify_all();
+        while g.point_release.get(&role).copied().unwrap_or(0) < target
+            && g.stepping.get(&role).copied().unwrap_or(false) {
+            g = ctl.cv.wait(g).unwrap_or_else(|e| e.into_inner());
+        }
+        g.point_state.insert(role, None);
+        drop(g);
+        ctl.cv.notify_all();
+    }
+}
+
+pub(crate) fn log_oracle(entry: Oracle) {
+    with_ctx(|ctx| { ctx.ctl.lock().oracle.push(entry); });
+}
+
+pub(crate) fn has_ctx() -> bool {
+    with_ctx(|_| ()).is_some()
+}
+
+/// Lock tracer: the current thread is about to acquire a lock of class `class`.
+pub(crate) fn lock_acquire(class: &'static str) {
+    with_ctx(|ctx| {
+        let edge = (ctx.held.clone(), class);
+        let mut g = ctx.ctl.lock();
+        if !g.lock_edges.contains(&edge) { g.lock_edges.push(edge); }
+        drop(g);
+        ctx.held.push(class);
+    });
+}
+
+/// Lock tracer: the current thread released its most recent lock of class `class`.
+pub(crate) fn lock_release(class: &'static str) {
+    with_ctx(|ctx| {
+        if let Some(pos) = ctx.held.iter().rposition(|c| *c == class) { ctx.held.remove(pos); }
+    });
+}
+
+/// Complete internal state of a cache with `u64` keys and values, in a canonical (sorted) form.
+#[derive(Clone, Debug, Default, PartialEq)]
+pub struct Snapshot {
+    /// (key, value, key id, expiry in ns since the epoch, soft-deleted)
+    pub store: Vec<(u64, u64, u64, Option<u128>, bool)>,
+    /// (key id, key, key hash, weight)
+    pub weights: Vec<(u64, u64, u64, i64)>,
+    pub weight_used: i64,
+    /// (shard, key id, expiry in ns since the epoch)
+    pub ticker: Vec<(usize, u64, u128)>,
+    pub stats: [u64; 10],
+    pub hit_ratio: f64,
+    pub queue_len: usize,
+    pub pool: Vec<Vec<u64>>,
+    pub chan_len: usize,
+    pub rows: Vec<Vec<u8>>,
+    pub seeds: Vec<u64>,
+    pub total_counters: u64,
+    pub total_increments: u64,
+    pub reset_counters_at: u64,
+    pub next_id: u64,
+    pub is_shutting_down: bool,
+}
+
+pub fn system_time_to_ns(time: &std::time::SystemTime) -> u128 {
+    time.duration_since(std::time::UNIX_EPOCH).map(|d| d.as_nanos()).unwrap_or(0)
+}
